@@ -134,6 +134,8 @@ Props ==
   \* ---- every step of every map is a step of the abstract allocator that TLAPS proves safe for all sizes
   /\ Assert(Abs1!ANextObs /\ Abs2!ANextObs /\ Abs3!ANextObs, <<"AbsRefines", c>>)
   /\ Assert(AbsStepOK(st, st'), <<"AbsStepOK (the form used in trace validation)", c>>)
+  \* ---- ... and every step is a step of the abstract name space that TLAPS proves prefix-free for every forest
+  /\ Assert(AbsNamesOK(st, st'), <<"AbsNamesOK: refines NamesAbs!NamesRel", c>>)
   /\ IF Export THEN PrintT(<<"EDGE", ToJson([key |-> key, s |-> st, i |-> c, t |-> st'])>>) ELSE TRUE
 \* consequence: reported paths are pairwise distinct (and prefix-free)
 PathsDistinct == \A m \in Maps : LET rs == AllRes(st.maps, m) IN
